@@ -43,6 +43,16 @@ def fams(n):
     F['slice-chain'] = ('dexpr', 'a' + '[:]'*n)
     F['generic-inst'] = ('dfile', 'package p; var x ' + 'T['*n + 'int' + ']'*n)
     F['composite-keyed'] = ('dexpr', 'T{a: '*n + 'x' + '}'*n)
+    # bodies of control statements (each body is a block: counted against the cap, so every one of these must
+    # answer with the depth error, whatever the header form)
+    F['if-body'] = ('dstmt', 'if x { '*n + '}'*n)
+    F['for-body'] = ('dstmt', 'for { '*n + '}'*n)
+    F['for-cond-body'] = ('dstmt', 'for x { '*n + '}'*n)
+    F['for-clause-body'] = ('dstmt', 'for i := 0; i < n; i++ { '*n + '}'*n)
+    F['for-range-body'] = ('dstmt', 'for range x { '*n + '}'*n)
+    F['for-range-kv-body'] = ('dstmt', 'for k, v := range x { '*n + '}'*n)
+    F['func-lit-body'] = ('dstmt', 'f = func() { '*n + '}'*n)
+    F['if-else-body'] = ('dstmt', 'if x {} else { '*n + '}'*n)
     return F
 
 UNCOUNTED = ['unary-minus-sp', 'unary-not', 'unary-star', 'unary-arrow', 'unary-amp', 'labels', 'elseif', 'casebody', 'commbody', 'funclit-if', 'funclit-for', 'funclit-switch']
